@@ -175,18 +175,19 @@ func vpDecide(c bool) bool                              { return c }
 func vpGuardedBy(root any, mu any, immutable ...string) {}
 func vpUnguard()                                        {}
 func vpLockEvents(reset bool) int                       { return 0 }
+
 // vpOneCriticalSection: since the last call / vpLockEvents(true) the guarded mutex
 // was acquired and released exactly once (engine); natively there is no monitor.
-func vpOneCriticalSection() bool                         { return true }
-func vpSelectFirst(on bool)                             {}
-func vpBlockedIsViolation(label string)                  {}
-func vpYield()                                          {}
-func vpIsOpaqueStr(s string) bool                       { return false }
-func vpNote(s string)                                   { vpObs = append(vpObs, s) }
-func vpNoteInt64(tag string, v int64)                   { vpObs = append(vpObs, fmt.Sprintf("%s=%d", tag, v)) }
-func vpNoteBool(tag string, v bool)                     { vpObs = append(vpObs, fmt.Sprintf("%s=%v", tag, v)) }
-func vpNoteStr(tag string, v string)                    { vpObs = append(vpObs, fmt.Sprintf("%s=%x", tag, v)) }
-func vpSameObject(a, b any) bool                        { return a == b }
+func vpOneCriticalSection() bool        { return true }
+func vpSelectFirst(on bool)             {}
+func vpBlockedIsViolation(label string) {}
+func vpYield()                          {}
+func vpIsOpaqueStr(s string) bool       { return false }
+func vpNote(s string)                   { vpObs = append(vpObs, s) }
+func vpNoteInt64(tag string, v int64)   { vpObs = append(vpObs, fmt.Sprintf("%s=%d", tag, v)) }
+func vpNoteBool(tag string, v bool)     { vpObs = append(vpObs, fmt.Sprintf("%s=%v", tag, v)) }
+func vpNoteStr(tag string, v string)    { vpObs = append(vpObs, fmt.Sprintf("%s=%x", tag, v)) }
+func vpSameObject(a, b any) bool        { return a == b }
 
 // vpClock: the k-th free duration returned by the engine's clock stub (engine only).
 func vpClock(name string, k int) int64 { return 0 }
